@@ -20,3 +20,22 @@ Print Assumptions C01_every_arm_terminated.
 Theorem C01_charref_only_where_spec_allows : charref_states_ok html_flavour html_table = [].
 Proof. exact html_charref_states_ok. Qed.
 Print Assumptions C01_charref_only_where_spec_allows.
+
+(* ------------------------------------------------------------------ against a FORMAL WHATWG tokenizer
+   TokIR/WhatwgSpec.v is the tokenization algorithm of the standard (13.2.5, all 80 states, preprocessing of 13.2.3.5, named
+   references by maximal munch over the WHATWG table CharRef/WhatwgEntities.v, tokens without parse errors, the feedback
+   of tree construction scripted) as an executable state machine, transcribed from the text of the standard through
+   lib/whatwg_tok.py and independent of html5ever, the interpreter and the tables.
+   Stage A (this Example): a TEST by computation - on 33 nasty inputs (all token kinds, every family of states, CR / CR LF /
+   NUL, duplicate attributes, legacy character references, numeric references of every class, end of input inside every
+   construct, RCDATA / RAWTEXT / script data (escaped, double escaped) / PLAINTEXT / CDATA start states, state switches,
+   a script pause inserting text, an encoding suspension) the specification's tokens and the tokens of the interpreter on
+   the regenerated table (flat queue, exact_errors = true, regenerated entity and C1 tables) agree: character tokens merged,
+   U+0000 kept as its own token, parse errors dropped. *)
+From HV Require Import TokIR.BulkSim TokIR.WhatwgSpec Inst.InstWhatwg.
+Example C01_whatwg_cross_check :
+  map (fun c => spec_tokens 3000 (tc_sk c) (tc_inject c) (tc_state c) (tc_last c) (tc_text c)) cases =
+  map (fun c => Some (interp_tokens 3000 (tc_sk c) (tc_inject c) (tc_state c) (tc_last c) (tc_text c))) cases /\
+  length cases = 33%nat.
+Proof. split; [exact whatwg_cross_check|reflexivity]. Qed.
+Print Assumptions C01_whatwg_cross_check.
